@@ -588,7 +588,17 @@ def step (st : St) (op0 impl : String) : St × StepOut :=
                                      authed := ses.authed || eff.contains Effect.authenticated }
       let rem := ((getField ws "rem").bind natList?).getD []
       let (sesO, orc1) := oracleOn ses' (some fr) tbl rem impl st.emitted
-      let orc := orc1 ++ violationOracle ses fr impl ++ enumOracle ((st.set (k.toNat?.getD 0) sesO).sessions) impl
+      -- C18, end to end: a session that has just proved the cookie is turned away (stops instead of
+      -- becoming ready) only in favour of another session of the same peer name that proved it too
+      let kn := k.toNat?.getD 0
+      let provedNow := (sesO.oGood && !ses.oGood) || (sesO.oRelayed && !ses.oRelayed)
+      let rival := st.sessions.any (fun (k', s) => k' != kn && (s.oGood || s.oRelayed) && !s.oClosed &&
+        (s.st.name.map (·.1)) == (s'.name.map (·.1)) && s.st.name.isSome)
+      let orcV := match parseObs? impl with
+        | some o => if provedNow && !ses.st.stopped && !selfConnection ses.cfg ses.st && !o.alive && !rival
+                    then ["authenticated-session-turned-away-without-authenticated-rival"] else []
+        | none => []
+      let orc := orc1 ++ orcV ++ violationOracle ses fr impl ++ enumOracle ((st.set (k.toNat?.getD 0) sesO).sessions) impl
       let nt := eff.any (·.gated) || s'.stopped
       -- dials of the advertised loopback listener (other addresses are not dialable and not observed)
       let nc := (eff.filter (fun e => match e with | .connect a => a.startsWith "127.0.0.1:" | _ => false)).length
@@ -652,7 +662,14 @@ def step (st : St) (op0 impl : String) : St × StepOut :=
       let ses' := closeTransport ses
       let (sesO, orc0) := oracleOn ses' none tbl [] impl
       -- a framing fault / EOF closes this session (C19: "closes that session only")
-      let orc := orc0 ++ (match parseObs? impl with
+      -- C18, end to end: the NodeServer stops a session (election loser) only in favour of a session of
+      -- the same peer name that PROVED the cookie - an unauthenticated connection can neither displace
+      -- nor veto another one, whatever name it claims
+      let kn := k.toNat?.getD 0
+      let rival := st.sessions.any (fun (k', s) => k' != kn && (s.oGood || s.oRelayed) &&
+        (s.st.name.map (·.1)) == (ses.st.name.map (·.1)) && s.st.name.isSome)
+      let orcK := if ws.head? == some "killed" && !ses.st.stopped && !rival then ["session-displaced-without-authenticated-rival"] else []
+      let orc := orc0 ++ orcK ++ (match parseObs? impl with
         | some o => if o.alive && !(ws.head? == some "killed") then ["wire-fault-did-not-close-session"] else []
         | none => [])
       (st.set (k.toNat?.getD 0) sesO, { model := showObs ses' [], oracle := orc, nontrivial := true })
